@@ -1,8 +1,14 @@
 // C27 — the in-memory peer store returns fresh, distinct announcements.
+
+//go:debug randseednop=0
+
 package c27
 
 import (
+	"encoding/json"
 	"fmt"
+	"hash/fnv"
+	"math/rand"
 	"os"
 	"runtime"
 	"sort"
@@ -36,6 +42,17 @@ func newClock() *hclock {
 
 func (c *hclock) Now() time.Time          { return time.Unix(0, c.ns.Load()) }
 func (c *hclock) Advance(d time.Duration) { c.ns.Add(int64(d)) }
+
+// seedGlobalRand pins the process-wide math/rand source LocalStore.GetPeers samples
+// from to a value derived from the case, so that a case behaves the same on every
+// run (rapid refuses to shrink a failure whose message changes between two runs).
+// Needs the randseednop=0 directive above: go 1.24 made rand.Seed a no-op.
+func seedGlobalRand(c interface{}) {
+	b, _ := json.Marshal(c)
+	h := fnv.New64a()
+	h.Write(b)
+	rand.Seed(int64(h.Sum64()))
+}
 
 func torrent(i int) core.InfoHash {
 	var h core.InfoHash
@@ -83,7 +100,7 @@ type SeqCase struct {
 
 func genSeq(t *rapid.T) SeqCase {
 	c := SeqCase{TTLSec: rapid.SampledFrom([]int{8, 60, 3600}).Draw(t, "ttl")}
-	n := rapid.IntRange(1, 70).Draw(t, "nops")
+	lo := rapid.IntRange(1, 60).Draw(t, "minops") // lower bound only: keeps histories long, still lets the shrinker delete steps
 	c.Ops = rapid.SliceOfN(rapid.Custom(func(t *rapid.T) Op {
 		k := rapid.SampledFrom([]int{0, 0, 0, 0, 1, 1, 1, 2, 2, 3, 3, 4}).Draw(t, "k")
 		op := Op{K: k}
@@ -101,7 +118,7 @@ func genSeq(t *rapid.T) SeqCase {
 			op.Adv = rapid.IntRange(0, 6).Draw(t, "adv")
 		}
 		return op
-	}), n, n).Draw(t, "ops")
+	}), lo, 70).Draw(t, "ops")
 	return c
 }
 
@@ -143,6 +160,7 @@ func runSeq(c SeqCase) pbt.Verdict {
 			return pbt.Verdict{Discard: true}
 		}
 	}
+	seedGlobalRand(c)
 	ttl := time.Duration(c.TTLSec) * time.Second
 	clk := newClock()
 	s := peerstore.NewLocalStore(peerstore.LocalConfig{TTL: ttl}, clk)
@@ -307,7 +325,7 @@ func genStress(t *rapid.T) StressCase {
 	if os.Getenv("VERIF_TIER") == "thorough" {
 		maxRounds = 60
 	}
-	n := rapid.IntRange(4, maxRounds).Draw(t, "nrounds")
+	lo := rapid.IntRange(2, maxRounds-4).Draw(t, "minrounds")
 	c.Rounds = rapid.SliceOfN(rapid.Custom(func(t *rapid.T) Round {
 		a := rapid.Uint32().Draw(t, "m1")
 		b := rapid.Uint32().Draw(t, "m2")
@@ -316,7 +334,7 @@ func genStress(t *rapid.T) StressCase {
 			m = 0xffffffff
 		}
 		return Round{Adv: rapid.IntRange(1, 7).Draw(t, "adv"), Churn: m, Settle: rapid.IntRange(0, 4).Draw(t, "settle") == 4}
-	}), n, n).Draw(t, "rounds")
+	}), lo, maxRounds).Draw(t, "rounds")
 	return c
 }
 
